@@ -1,2 +1,1077 @@
+"""ttvc — verification-condition generator for the real teneva source (tier T1 of DESIGN.md).
+
+The engine reads a function of /repo/teneva/<module>.py with `ast` on every run and executes its body
+symbolically: numbers become z3 Int/Real terms, optional arguments (is-None flag, value) pairs, dicts with
+literal keys records, lists concrete or symbolic sequences, ndarrays abstract values with a symbolic shape
+and (optionally) a denotation in the abstract matrix/core theory of ttvc/theory.py.  Branches split paths
+(with pruning of infeasible ones), loops are cut by the invariant supplied by the sidecar contract, calls
+to other teneva functions use the callee's *contract* (never its body), calls to NumPy/SciPy/builtins use
+the model table ttvc/models.py.  Everything the body *needs* (index ranges, shape agreement, non-None
+operands, callee preconditions) and everything the contract *promises* becomes a named obligation that is
+discharged by z3 (cvc5 as second back end, ttvc/prove.py).
+
+Python semantics assumed (A-PY): left-to-right evaluation; ints are mathematical integers; floats are real
+numbers (A-REAL); no monkey-patching; docstrings, `print`, f-strings and `if log:` branches are dropped.
+Constructs outside the supported subset raise `Unsupported` -> the unit is *undecided*, never a violation.
+"""
+import ast, hashlib, os
+import z3
+
+REPO = os.environ.get('VERIF_REPO', '/repo')
+
+
 class Unsupported(Exception):
-    pass
+    """The (possibly modified) source uses a construct or library call outside the supported subset."""
+
+
+class ContractMismatch(Unsupported):
+    """The sidecar contract no longer matches the structure of the function (e.g. loop ordinals)."""
+
+
+# ----------------------------------------------------------------------------------------------
+# source extraction
+
+_SRC_CACHE = {}
+
+
+def module_ast(module):
+    path = os.path.join(REPO, 'teneva', module + '.py')
+    if path not in _SRC_CACHE:
+        src = open(path).read()
+        _SRC_CACHE[path] = (src, ast.parse(src))
+    return _SRC_CACHE[path]
+
+
+class FuncSrc:
+    def __init__(self, module, qual, node, text):
+        self.module, self.qual, self.node, self.text = module, qual, node, text
+        self.lines = (node.lineno, node.end_lineno)
+        self.sha = hashlib.sha256(text.encode()).hexdigest()[:16]
+        body = list(node.body)
+        self.dropped = []
+        if body and isinstance(body[0], ast.Expr) and isinstance(body[0].value, ast.Constant) \
+                and isinstance(body[0].value.value, str):
+            body = body[1:]
+            self.dropped.append('docstring')
+        self.body = body
+        self.params = [a.arg for a in node.args.args]
+        defaults = node.args.defaults
+        self.defaults = dict(zip(self.params[len(self.params) - len(defaults):], defaults))
+
+    def describe(self):
+        return {'function': f'teneva/{self.module}.py:{self.qual}', 'lines': list(self.lines), 'sha256_16': self.sha,
+                'dropped': sorted(set(self.dropped))}
+
+
+def load_func(module, qual):
+    """qual: 'name' or 'Class.method'."""
+    src, tree = module_ast(module)
+    scope = tree.body
+    node = None
+    for part in qual.split('.'):
+        node = None
+        for n in scope:
+            if isinstance(n, (ast.FunctionDef, ast.ClassDef)) and n.name == part:
+                node = n
+                break
+        if node is None:
+            raise ContractMismatch(f'function {module}.{qual} not found in /repo')
+        scope = node.body
+    if not isinstance(node, ast.FunctionDef):
+        raise ContractMismatch(f'{module}.{qual} is not a function')
+    return FuncSrc(module, qual, node, ast.get_source_segment(src, node))
+
+
+def export_table():
+    """teneva.<name> -> (module, name), read mechanically from /repo/teneva/__init__.py."""
+    src, tree = module_ast('__init__')
+    tab = {}
+    for n in tree.body:
+        if isinstance(n, ast.ImportFrom) and n.level == 1 and n.module:
+            for a in n.names:
+                tab[a.asname or a.name] = (n.module, a.name)
+    return tab
+
+
+# ----------------------------------------------------------------------------------------------
+# values
+
+class _None:
+    def __repr__(self):
+        return 'NONE'
+
+
+NONE = _None()
+
+_STR = {}
+
+
+def strcode(s):
+    if s not in _STR:
+        _STR[s] = len(_STR) + 1
+    return _STR[s]
+
+
+def strname(code):
+    for k, v in _STR.items():
+        if v == code:
+            return k
+    return f'<str#{code}>'
+
+
+class VStr:
+    """String value: an interned code (z3 Int).  Literal strings have concrete codes."""
+    def __init__(self, code):
+        self.code = z3.IntVal(strcode(code)) if isinstance(code, str) else code
+
+    def concrete(self):
+        c = z3.simplify(self.code)
+        return strname(c.as_long()) if z3.is_int_value(c) else None
+
+    def __repr__(self):
+        return f'VStr({self.concrete() or self.code})'
+
+
+class VOpt:
+    """Optional value: None (isnone) or `val` (z3 arithmetic term, VStr, or other value)."""
+    def __init__(self, isnone, val):
+        self.isnone, self.val = isnone, val
+
+    def __repr__(self):
+        return f'VOpt({self.isnone}, {self.val})'
+
+
+class VTuple:
+    def __init__(self, items):
+        self.items = list(items)
+
+    def __repr__(self):
+        return f'VTuple({self.items})'
+
+
+class VRef:
+    """Reference to a mutable heap object (VList / VRec / VSeq cell)."""
+    def __init__(self, oid):
+        self.oid = oid
+
+    def __repr__(self):
+        return f'VRef({self.oid})'
+
+
+class VList:
+    """Python list of concrete length."""
+    def __init__(self, items):
+        self.items = list(items)
+
+    def copy(self):
+        return VList(self.items)
+
+
+class VRec:
+    """dict with literal string keys."""
+    def __init__(self, fields):
+        self.fields = dict(fields)
+
+    def copy(self):
+        return VRec(self.fields)
+
+
+class VSeq:
+    """List of symbolic length n whose k-th element is elem(k) (a value built from a z3 array select)."""
+    def __init__(self, arr, n, wrap, tag=''):
+        self.arr, self.n, self.wrap, self.tag = arr, n, wrap, tag
+
+    def get(self, k):
+        return self.wrap(self.arr[k])
+
+    def copy(self):
+        return VSeq(self.arr, self.n, self.wrap, self.tag)
+
+
+class VArr:
+    """Abstract ndarray: concrete ndim, symbolic shape, optional denotation `t` in a theory sort
+    (tag says which: 'mat', 'core', 'vec' = 1-D view of a 1 x n matrix, 'ivec', 'imat', None)."""
+    def __init__(self, shape, t=None, tag=None, dtype='f', note=''):
+        self.shape, self.t, self.tag, self.dtype, self.note = tuple(shape), t, tag, dtype, note
+
+    @property
+    def ndim(self):
+        return len(self.shape)
+
+    def __repr__(self):
+        return f'VArr{self.shape}<{self.tag}:{self.t}>'
+
+
+class VFunc:
+    """Callable value: handler(ex, st, args, kwargs, node) -> value."""
+    def __init__(self, name, handler):
+        self.name, self.handler = name, handler
+
+
+class VOpaque:
+    """A value the engine does not interpret (only passed around)."""
+    def __init__(self, what):
+        self.what = what
+
+    def __repr__(self):
+        return f'VOpaque({self.what})'
+
+
+def is_z3num(v):
+    return isinstance(v, z3.ArithRef)
+
+
+def is_num(v):
+    return isinstance(v, (int, float)) and not isinstance(v, bool) or is_z3num(v)
+
+
+def is_boolv(v):
+    return isinstance(v, bool) or isinstance(v, z3.BoolRef)
+
+
+def Z(v):
+    """Lift a Python number / bool to z3."""
+    if isinstance(v, bool):
+        return z3.BoolVal(v)
+    if isinstance(v, int):
+        return z3.IntVal(v)
+    if isinstance(v, float):
+        if v != v or v in (float('inf'), float('-inf')):
+            raise Unsupported('non-finite float literal')
+        if v == int(v) and abs(v) < 1e18:
+            return z3.RealVal(int(v))
+        return z3.RealVal(repr(v))
+    return v
+
+
+def is_intsort(v):
+    return isinstance(v, int) and not isinstance(v, bool) or (is_z3num(v) and v.sort() == z3.IntSort())
+
+
+# ----------------------------------------------------------------------------------------------
+# state
+
+class Outcome:
+    def __init__(self, kind, value=None, exc=None, node=None):
+        self.kind, self.value, self.exc, self.node = kind, value, exc, node   # normal|return|raise|break|continue
+
+    def __repr__(self):
+        return f'<{self.kind} {self.exc or ""}>'
+
+
+NORMAL = Outcome('normal')
+
+
+class NeedDecision(Exception):
+    def __init__(self, cond):
+        self.cond = cond
+
+
+class State:
+    def __init__(self):
+        self.vars, self.heap, self.pc, self.ghost = {}, {}, [], {}
+        self.obl = []            # shared list (not copied): (kind, label, hyps, goal, lineno, trace)
+        self.trace = []          # branch decisions, for reporting
+        self.decisions, self.dpos = [], 0
+        self.next_oid = [1]
+
+    def copy(self):
+        t = State()
+        t.vars = dict(self.vars)
+        t.heap = {k: v.copy() for k, v in self.heap.items()}
+        t.pc = list(self.pc)
+        t.ghost = dict(self.ghost)
+        t.obl = self.obl
+        t.trace = list(self.trace)
+        t.decisions, t.dpos = list(self.decisions), self.dpos
+        t.next_oid = self.next_oid
+        return t
+
+    def alloc(self, obj):
+        oid = self.next_oid[0]
+        self.next_oid[0] += 1
+        self.heap[oid] = obj
+        return VRef(oid)
+
+    def deref(self, v):
+        return self.heap[v.oid] if isinstance(v, VRef) else v
+
+    def assume(self, *facts):
+        for f in facts:
+            if f is True:
+                continue
+            self.pc.append(Z(f))
+
+
+# ----------------------------------------------------------------------------------------------
+# executor
+
+_FEAS = {}
+
+
+class Exec:
+    def __init__(self, unit, func, models, callees=None, loops=None, axioms=(), timeout_ms=20000, prune=True,
+                 type_hints=None):
+        self.unit, self.func, self.models = unit, func, models
+        self.callees = callees or {}
+        self.loops = loops or {}
+        self.axioms = list(axioms)
+        self.cnt = 0
+        self.loop_ord = {}
+        self.prune = prune
+        self.type_hints = type_hints or {}
+        self._number_loops(func.body)
+        self.exports = export_table()
+        self.dropped = set(func.dropped)
+
+    # ---- helpers
+    def fresh(self, name, sort=None):
+        self.cnt += 1
+        return z3.Const(f'{name}!{self.cnt}', sort if sort is not None else z3.IntSort())
+
+    def fresh_int(self, name='i'):
+        return self.fresh(name, z3.IntSort())
+
+    def fresh_real(self, name='x'):
+        return self.fresh(name, z3.RealSort())
+
+    def fresh_bool(self, name='b'):
+        return self.fresh(name, z3.BoolSort())
+
+    def _number_loops(self, body):
+        k = 0
+        for n in ast.walk(ast.Module(body=body, type_ignores=[])):
+            if isinstance(n, (ast.For, ast.While)):
+                pass
+        # ordinal = order of appearance in source (pre-order)
+        def visit(stmts):
+            nonlocal k
+            for s in stmts:
+                if isinstance(s, (ast.For, ast.While)):
+                    self.loop_ord[id(s)] = k
+                    k += 1
+                for fld in ('body', 'orelse', 'finalbody'):
+                    if hasattr(s, fld) and isinstance(getattr(s, fld), list):
+                        visit(getattr(s, fld))
+                if isinstance(s, ast.Try):
+                    for h in s.handlers:
+                        visit(h.body)
+        visit(body)
+        self.nloops = k
+
+    def oblige(self, st, kind, label, goal, node=None, assume=True):
+        goal = Z(goal)
+        g = z3.simplify(goal)
+        if not z3.is_true(g):
+            st.obl.append((kind, label, list(st.pc), goal, getattr(node, 'lineno', 0), list(st.trace)))
+        if assume:
+            st.pc.append(goal)
+
+    def feasible(self, st, cond):
+        if not self.prune:
+            return True
+        s = z3.Solver()
+        s.set('timeout', 1500)
+        for a in self.axioms:
+            s.add(a)
+        s.add(*st.pc)
+        s.add(cond)
+        return s.check() != z3.unsat
+
+    def decide(self, st, cond, node=None):
+        """Branch on a symbolic condition inside expression/statement evaluation (replay-with-decisions)."""
+        if isinstance(cond, bool):
+            return cond
+        c = z3.simplify(cond)
+        if z3.is_true(c):
+            return True
+        if z3.is_false(c):
+            return False
+        if st.dpos < len(st.decisions):
+            d = st.decisions[st.dpos]
+            st.dpos += 1
+            st.pc.append(c if d else z3.Not(c))
+            st.trace.append(f'L{getattr(node, "lineno", "?")}:{"T" if d else "F"}')
+            return d
+        raise NeedDecision(c)
+
+    # ---- truthiness / coercions
+    def truth(self, st, v, node=None):
+        """z3 Bool (or Python bool) for the truthiness of a value."""
+        if isinstance(v, bool):
+            return v
+        if isinstance(v, z3.BoolRef):
+            return v
+        if v is NONE:
+            return False
+        if isinstance(v, (int, float)):
+            return v != 0
+        if is_z3num(v):
+            return v != 0
+        if isinstance(v, VOpt):
+            inner = self.truth(st, v.val, node)
+            return z3.And(z3.Not(v.isnone), Z(inner))
+        if isinstance(v, VStr):
+            return v.code != strcode('')
+        if isinstance(v, VRef):
+            o = st.deref(v)
+            if isinstance(o, VList):
+                return len(o.items) > 0
+            if isinstance(o, VSeq):
+                return o.n > 0
+            if isinstance(o, VRec):
+                return len(o.fields) > 0
+        if isinstance(v, VTuple):
+            return len(v.items) > 0
+        if isinstance(v, (VFunc, VOpaque)):
+            return True
+        if isinstance(v, VArr):
+            raise Unsupported('truth value of an array')
+        raise Unsupported(f'truthiness of {type(v).__name__}')
+
+    def need_num(self, st, v, node, what='operand'):
+        """Arithmetic use of a value: unwrap optionals with a safety obligation."""
+        if isinstance(v, VOpt):
+            self.oblige(st, 'safety', f'{what}-not-None', z3.Not(v.isnone), node)
+            return self.need_num(st, v.val, node, what)
+        if isinstance(v, bool):
+            return int(v)
+        if isinstance(v, z3.BoolRef):
+            return z3.If(v, 1, 0)
+        if is_num(v):
+            return v
+        if v is NONE:
+            self.oblige(st, 'safety', f'{what}-not-None', False, node)
+            return self.fresh_real('undef')
+        raise Unsupported(f'numeric use of {type(v).__name__} at line {getattr(node, "lineno", "?")}')
+
+    def merge(self, st, c, a, b, node=None):
+        """Value of `a if c else b` without forking when both sides are simple."""
+        if isinstance(c, bool):
+            return a if c else b
+        if a is NONE and b is NONE:
+            return NONE
+        if a is NONE:
+            b2 = b if isinstance(b, VOpt) else VOpt(z3.BoolVal(False), b)
+            return VOpt(z3.Or(c, b2.isnone), b2.val)
+        if b is NONE:
+            a2 = a if isinstance(a, VOpt) else VOpt(z3.BoolVal(False), a)
+            return VOpt(z3.Or(z3.Not(c), a2.isnone), a2.val)
+        if isinstance(a, VOpt) or isinstance(b, VOpt):
+            a2 = a if isinstance(a, VOpt) else VOpt(z3.BoolVal(False), a)
+            b2 = b if isinstance(b, VOpt) else VOpt(z3.BoolVal(False), b)
+            return VOpt(z3.If(c, a2.isnone, b2.isnone), self.merge(st, c, a2.val, b2.val, node))
+        if isinstance(a, VStr) and isinstance(b, VStr):
+            return VStr(z3.If(c, a.code, b.code))
+        if is_boolv(a) and is_boolv(b):
+            return z3.If(c, Z(a), Z(b))
+        if is_num(a) and is_num(b):
+            za, zb = Z(a), Z(b)
+            if za.sort() != zb.sort():
+                za, zb = z3.ToReal(za) if za.sort() == z3.IntSort() else za, \
+                    z3.ToReal(zb) if zb.sort() == z3.IntSort() else zb
+            return z3.If(c, za, zb)
+        if isinstance(a, VTuple) and isinstance(b, VTuple) and len(a.items) == len(b.items):
+            return VTuple([self.merge(st, c, x, y, node) for x, y in zip(a.items, b.items)])
+        # anything else: fork
+        return a if self.decide(st, c, node) else b
+
+    # ---- expressions
+    def ev(self, e, st):
+        m = getattr(self, 'ev_' + type(e).__name__, None)
+        if m is None:
+            raise Unsupported(f'expression {type(e).__name__} at line {e.lineno}')
+        return m(e, st)
+
+    def ev_Constant(self, e, st):
+        v = e.value
+        if v is None:
+            return NONE
+        if isinstance(v, (bool, int, float)):
+            return v
+        if isinstance(v, str):
+            return VStr(v)
+        if v is Ellipsis:
+            return VOpaque('...')
+        raise Unsupported(f'constant {v!r}')
+
+    def ev_Name(self, e, st):
+        if e.id in st.vars:
+            return st.vars[e.id]
+        if e.id in self.models.GLOBAL_NAMES:
+            return self.models.GLOBAL_NAMES[e.id]
+        if e.id in ('True', 'False'):
+            return e.id == 'True'
+        raise Unsupported(f'unbound name {e.id} at line {e.lineno}')
+
+    def ev_Tuple(self, e, st):
+        return VTuple([self.ev(x, st) for x in e.elts])
+
+    def ev_List(self, e, st):
+        return st.alloc(VList([self.ev(x, st) for x in e.elts]))
+
+    def ev_Dict(self, e, st):
+        f = {}
+        for k, v in zip(e.keys, e.values):
+            if not (isinstance(k, ast.Constant) and isinstance(k.value, str)):
+                raise Unsupported('dict literal with non-literal key')
+            f[k.value] = self.ev(v, st)
+        return st.alloc(VRec(f))
+
+    def ev_JoinedStr(self, e, st):
+        self.dropped.add('f-string')
+        return VOpaque('fstring')
+
+    def ev_IfExp(self, e, st):
+        c = self.truth(st, self.ev(e.test, st), e)
+        if isinstance(c, bool):
+            return self.ev(e.body if c else e.orelse, st)
+        cs = z3.simplify(c)
+        if z3.is_true(cs):
+            return self.ev(e.body, st)
+        if z3.is_false(cs):
+            return self.ev(e.orelse, st)
+        # evaluate both sides under their guard (obligations must carry the guard): fork
+        if self.decide(st, c, e):
+            return self.ev(e.body, st)
+        return self.ev(e.orelse, st)
+
+    def ev_BoolOp(self, e, st):
+        # value semantics of and/or with short circuit; fork only if a later operand has effects we cannot guard
+        vals = e.values
+        cur = self.ev(vals[0], st)
+        for nxt in vals[1:]:
+            t = self.truth(st, cur, e)
+            if isinstance(t, bool):
+                stop = (not t) if isinstance(e.op, ast.And) else t
+                if stop:
+                    return cur
+                cur = self.ev(nxt, st)
+                continue
+            ts = z3.simplify(t)
+            if z3.is_true(ts) or z3.is_false(ts):
+                tv = z3.is_true(ts)
+                stop = (not tv) if isinstance(e.op, ast.And) else tv
+                if stop:
+                    return cur
+                cur = self.ev(nxt, st)
+                continue
+            if self._pure(nxt):
+                # guard the evaluation of the right operand by the short-circuit condition
+                guard = t if isinstance(e.op, ast.And) else z3.Not(t)
+                mark = len(st.pc)
+                st.pc.append(guard)
+                try:
+                    rhs = self.ev(nxt, st)
+                finally:
+                    added = st.pc[mark + 1:]
+                    del st.pc[mark:]
+                    for a in added:          # facts learnt under the guard stay guarded
+                        st.pc.append(z3.Implies(guard, a))
+                if is_boolv(cur) and is_boolv(rhs) or isinstance(cur, z3.BoolRef):
+                    r = self.truth(st, rhs, e)
+                    cur = z3.And(t, Z(r)) if isinstance(e.op, ast.And) else z3.Or(t, Z(r))
+                else:
+                    cur = self.merge(st, t, rhs, cur, e) if isinstance(e.op, ast.And) else self.merge(st, t, cur, rhs, e)
+            else:
+                d = self.decide(st, t, e)
+                stop = (not d) if isinstance(e.op, ast.And) else d
+                if stop:
+                    return cur
+                cur = self.ev(nxt, st)
+        return cur
+
+    def _pure(self, e):
+        for n in ast.walk(e):
+            if isinstance(n, ast.Call):
+                nm = ast.unparse(n.func)
+                if not self.models.is_pure_call(nm):
+                    return False
+            if isinstance(n, (ast.NamedExpr, ast.Await, ast.Yield)):
+                return False
+        return True
+
+    def ev_UnaryOp(self, e, st):
+        v = self.ev(e.operand, st)
+        if isinstance(e.op, ast.Not):
+            t = self.truth(st, v, e)
+            return (not t) if isinstance(t, bool) else z3.Not(t)
+        if isinstance(v, VArr):
+            return self.models.arr_unary(self, st, e.op, v, e)
+        v = self.need_num(st, v, e)
+        if isinstance(e.op, ast.USub):
+            return -v
+        if isinstance(e.op, ast.UAdd):
+            return v
+        raise Unsupported('unary ' + type(e.op).__name__)
+
+    def ev_BinOp(self, e, st):
+        l, r = self.ev(e.left, st), self.ev(e.right, st)
+        return self.binop(st, e.op, l, r, e)
+
+    def binop(self, st, op, l, r, node):
+        ld, rd = st.deref(l), st.deref(r)
+        if isinstance(ld, VArr) or isinstance(rd, VArr):
+            return self.models.arr_binop(self, st, op, ld, rd, node)
+        if isinstance(ld, VList) and isinstance(op, ast.Mult):
+            n = self.need_num(st, r, node)
+            if isinstance(n, int):
+                return st.alloc(VList(ld.items * n))
+            return self.models.list_repeat(self, st, ld, n, node)
+        if isinstance(ld, VList) and isinstance(rd, VList) and isinstance(op, ast.Add):
+            return st.alloc(VList(ld.items + rd.items))
+        if isinstance(ld, (VList, VSeq)) and isinstance(rd, (VList, VSeq)) and isinstance(op, ast.Add):
+            return self.models.seq_concat(self, st, ld, rd, node)
+        if isinstance(l, VStr) or isinstance(r, VStr):
+            self.dropped.add('string arithmetic')
+            return VOpaque('str')
+        if isinstance(l, VOpaque) or isinstance(r, VOpaque):
+            return VOpaque('arith')
+        a, b = self.need_num(st, l, node), self.need_num(st, r, node)
+        return self.arith(st, op, a, b, node)
+
+    def arith(self, st, op, a, b, node):
+        conc = isinstance(a, (int, float)) and isinstance(b, (int, float))
+        if isinstance(op, ast.Add):
+            return a + b
+        if isinstance(op, ast.Sub):
+            return a - b
+        if isinstance(op, ast.Mult):
+            if conc or isinstance(a, (int, float)) or isinstance(b, (int, float)):
+                return a * b
+            return self.models.nl_mul(self, st, a, b, node)
+        if isinstance(op, ast.Div):
+            self.oblige(st, 'safety', 'division-by-nonzero', Z(b) != 0, node)
+            if conc:
+                return a / b
+            za, zb = Z(a), Z(b)
+            za = z3.ToReal(za) if za.sort() == z3.IntSort() else za
+            zb = z3.ToReal(zb) if zb.sort() == z3.IntSort() else zb
+            if isinstance(b, (int, float)):
+                return za / zb
+            return self.models.nl_div(self, st, za, zb, node)
+        if isinstance(op, ast.FloorDiv):
+            self.oblige(st, 'safety', 'division-by-nonzero', Z(b) != 0, node)
+            if conc:
+                return a // b
+            if is_intsort(a) and is_intsort(b):
+                if isinstance(b, int) and b > 0:
+                    return Z(a) / Z(b)          # z3 int division = floor for positive divisor
+                return self.models.nl_floordiv(self, st, Z(a), Z(b), node)
+            raise Unsupported('float floor division')
+        if isinstance(op, ast.Mod):
+            self.oblige(st, 'safety', 'division-by-nonzero', Z(b) != 0, node)
+            if conc:
+                return a % b
+            if is_intsort(a) and isinstance(b, int) and b > 0:
+                return Z(a) % Z(b)
+            if is_intsort(a) and is_intsort(b):
+                return self.models.nl_mod(self, st, Z(a), Z(b), node)
+            raise Unsupported('float modulo')
+        if isinstance(op, ast.Pow):
+            return self.models.power(self, st, a, b, node)
+        if isinstance(op, ast.LShift):
+            if isinstance(a, int) and isinstance(b, int):
+                return a << b
+            return self.models.nl_mul(self, st, a, self.models.power(self, st, 2, b, node), node)
+        if isinstance(op, ast.MatMult):
+            raise Unsupported('@ on numbers')
+        raise Unsupported('binary ' + type(op).__name__)
+
+    def ev_Compare(self, e, st):
+        left = self.ev(e.left, st)
+        res = None
+        for op, rn in zip(e.ops, e.comparators):
+            right = self.ev(rn, st)
+            c = self.compare(st, op, left, right, e)
+            res = c if res is None else (z3.And(Z(res), Z(c)))
+            left = right
+        return res
+
+    def compare(self, st, op, l, r, node):
+        if isinstance(op, (ast.Is, ast.IsNot)):
+            neg = isinstance(op, ast.IsNot)
+            if r is NONE:
+                if l is NONE:
+                    v = True
+                elif isinstance(l, VOpt):
+                    v = l.isnone
+                else:
+                    v = False
+            elif isinstance(r, bool) or l is NONE:
+                # `x is True`: identity with the bool singleton
+                if l is NONE:
+                    v = r.isnone if isinstance(r, VOpt) else (r is NONE)
+                elif isinstance(l, bool):
+                    v = l == r
+                elif isinstance(l, z3.BoolRef):
+                    v = l if r else z3.Not(l)
+                elif isinstance(l, VOpt) and is_boolv(l.val):
+                    v = z3.And(z3.Not(l.isnone), Z(l.val) if r else z3.Not(Z(l.val)))
+                elif isinstance(l, VOpt):
+                    v = False      # a non-bool value is never the singleton True/False
+                else:
+                    v = False
+            else:
+                raise Unsupported('`is` on non-None operands')
+            return (not v if isinstance(v, bool) else z3.Not(v)) if neg else v
+        if isinstance(op, (ast.In, ast.NotIn)):
+            rd = st.deref(r)
+            if isinstance(rd, VRec) and isinstance(l, VStr) and l.concrete() is not None:
+                v = l.concrete() in rd.fields
+                return (not v) if isinstance(op, ast.NotIn) else v
+            return self.models.contains(self, st, l, rd, isinstance(op, ast.NotIn), node)
+        ld, rd = st.deref(l), st.deref(r)
+        if isinstance(ld, VArr) or isinstance(rd, VArr):
+            return self.models.arr_compare(self, st, op, ld, rd, node)
+        if isinstance(l, VStr) or isinstance(r, VStr):
+            ls = l.val if isinstance(l, VOpt) else l
+            rs = r.val if isinstance(r, VOpt) else r
+            if not (isinstance(ls, VStr) and isinstance(rs, VStr)):
+                v = False
+            else:
+                v = ls.code == rs.code
+                for o in (l, r):
+                    if isinstance(o, VOpt):
+                        v = z3.And(z3.Not(o.isnone), v)
+            if isinstance(op, ast.Eq):
+                return v
+            if isinstance(op, ast.NotEq):
+                return (not v) if isinstance(v, bool) else z3.Not(v)
+            raise Unsupported('string ordering')
+        if isinstance(op, (ast.Eq, ast.NotEq)) and (l is NONE or r is NONE):
+            o = r if l is NONE else l
+            v = True if o is NONE else (o.isnone if isinstance(o, VOpt) else False)
+            if isinstance(op, ast.NotEq):
+                v = (not v) if isinstance(v, bool) else z3.Not(v)
+            return v
+        a, b = self.need_num(st, l, node, 'comparison'), self.need_num(st, r, node, 'comparison')
+        f = {ast.Lt: lambda x, y: x < y, ast.LtE: lambda x, y: x <= y, ast.Gt: lambda x, y: x > y,
+             ast.GtE: lambda x, y: x >= y, ast.Eq: lambda x, y: x == y, ast.NotEq: lambda x, y: x != y}[type(op)]
+        if isinstance(a, (int, float)) and isinstance(b, (int, float)):
+            return f(a, b)
+        return f(Z(a), Z(b))
+
+    def ev_Attribute(self, e, st):
+        nm = ast.unparse(e)
+        if nm in self.models.GLOBAL_NAMES:
+            return self.models.GLOBAL_NAMES[nm]
+        v = st.deref(self.ev(e.value, st))
+        return self.models.attribute(self, st, v, e.attr, e)
+
+    def ev_Subscript(self, e, st):
+        base = self.ev(e.value, st)
+        return self.models.subscript(self, st, base, e.slice, e)
+
+    def ev_Slice(self, e, st):
+        raise Unsupported('bare slice')
+
+    def ev_ListComp(self, e, st):
+        return self.models.listcomp(self, st, e)
+
+    def ev_Lambda(self, e, st):
+        return VOpaque('lambda')
+
+    def ev_Call(self, e, st):
+        name = ast.unparse(e.func)
+        # local callable values (parameters such as f, cb, func)
+        if isinstance(e.func, ast.Name) and e.func.id in st.vars:
+            fv = st.vars[e.func.id]
+            return self.call_value(st, fv, e)
+        if isinstance(e.func, (ast.BoolOp, ast.IfExp)):
+            fv = self.ev(e.func, st)
+            return self.call_value(st, fv, e)
+        args = None
+        # teneva functions by contract
+        qual = None
+        if name.startswith('teneva.') and name.count('.') == 1:
+            short = name.split('.')[1]
+            if short in self.exports:
+                qual = '%s.%s' % self.exports[short]
+        elif isinstance(e.func, ast.Name):
+            if self.models.module_has(self.func.module, name):
+                qual = f'{self.func.module}.{name}'
+        if qual is not None:
+            h = self.callees.get(qual) or self.models.CALLEES.get(qual)
+            if h is None:
+                raise Unsupported(f'call of {qual} at line {e.lineno}: no contract available')
+            args = [self.ev(a, st) for a in e.args]
+            kwargs = {k.arg: self.ev(k.value, st) for k in e.keywords}
+            return h(self, st, args, kwargs, e)
+        # method calls on values
+        if isinstance(e.func, ast.Attribute) and name not in self.models.FUNCS:
+            root = e.func.value
+            rootname = ast.unparse(root).split('.')[0]
+            if not (rootname in ('np', 'sp', 'scipy', 'numpy', 'teneva', 'itertools') and rootname not in st.vars):
+                recv = self.ev(root, st)
+                args = [self.ev(a, st) for a in e.args]
+                kwargs = {k.arg: self.ev(k.value, st) for k in e.keywords}
+                return self.models.method(self, st, recv, e.func.attr, args, kwargs, e)
+        h = self.models.FUNCS.get(name)
+        if h is None:
+            raise Unsupported(f'call of {name} at line {e.lineno}: not in the model table')
+        args = [self.ev(a, st) for a in e.args]
+        kwargs = {k.arg: self.ev(k.value, st) for k in e.keywords}
+        return h(self, st, args, kwargs, e)
+
+    def call_value(self, st, fv, e):
+        if isinstance(fv, VOpt):
+            self.oblige(st, 'safety', 'callee-not-None', z3.Not(fv.isnone), e)
+            fv = fv.val
+        if not isinstance(fv, VFunc):
+            raise Unsupported(f'call of non-callable value at line {e.lineno}')
+        args = [self.ev(a, st) for a in e.args]
+        kwargs = {k.arg: self.ev(k.value, st) for k in e.keywords}
+        return fv.handler(self, st, args, kwargs, e)
+
+    # ---- statements
+    def exec_block(self, stmts, st):
+        states = [(st, NORMAL)]
+        for s in stmts:
+            nxt = []
+            for s0, o in states:
+                if o.kind != 'normal':
+                    nxt.append((s0, o))
+                else:
+                    nxt.extend(self.exec_stmt(s, s0))
+            states = nxt
+        return states
+
+    def exec_stmt(self, s, st):
+        """Run one statement; forks are handled by replaying the statement with recorded decisions."""
+        work, out = [[]], []
+        while work:
+            dec = work.pop()
+            t = st.copy()
+            t.decisions, t.dpos = dec, 0
+            nobl = len(st.obl)
+            try:
+                res = self._stmt(s, t)
+            except NeedDecision as nd:
+                del st.obl[nobl:]             # obligations of the aborted attempt are regenerated by the replays
+                for choice in (True, False):
+                    c = nd.cond if choice else z3.Not(nd.cond)
+                    probe = st.copy()
+                    probe.decisions, probe.dpos = dec, 0
+                    # feasibility is judged on the path condition of the aborted attempt
+                    if self.feasible(t, c):
+                        work.append(dec + [choice])
+                continue
+            for r in res:
+                r[0].decisions, r[0].dpos = [], 0
+            out.extend(res)
+        return out
+
+    def _stmt(self, s, st):
+        m = getattr(self, 'st_' + type(s).__name__, None)
+        if m is None:
+            raise Unsupported(f'statement {type(s).__name__} at line {s.lineno}')
+        return m(s, st)
+
+    def st_Pass(self, s, st):
+        return [(st, NORMAL)]
+
+    def st_Expr(self, s, st):
+        v = s.value
+        if isinstance(v, ast.Constant):
+            return [(st, NORMAL)]
+        if isinstance(v, ast.Call) and ast.unparse(v.func) == 'print':
+            self.dropped.add('print')
+            return [(st, NORMAL)]
+        self.ev(v, st)
+        return [(st, NORMAL)]
+
+    def st_Assign(self, s, st):
+        v = self.ev(s.value, st)
+        if isinstance(s.value, ast.List) and not s.value.elts and len(s.targets) == 1 \
+                and isinstance(s.targets[0], ast.Name) and s.targets[0].id in self.type_hints:
+            v = self.models.empty_seq(self, st, self.type_hints[s.targets[0].id])
+        for t in s.targets:
+            self.assign(t, v, st)
+        return [(st, NORMAL)]
+
+    def st_AugAssign(self, s, st):
+        cur = self.ev(s.target, st)
+        rhs = self.ev(s.value, st)
+        if isinstance(cur, VOpaque) or isinstance(rhs, VOpaque):
+            v = VOpaque('aug')
+        else:
+            v = self.binop(st, s.op, cur, rhs, s)
+        self.assign(s.target, v, st, aug=True)
+        return [(st, NORMAL)]
+
+    def assign(self, t, v, st, aug=False):
+        if isinstance(t, ast.Name):
+            st.vars[t.id] = v
+            return
+        if isinstance(t, (ast.Tuple, ast.List)):
+            items = self.models.unpack(self, st, v, len(t.elts), t)
+            for a, b in zip(t.elts, items):
+                self.assign(a, b, st)
+            return
+        if isinstance(t, ast.Subscript):
+            base = self.ev(t.value, st)
+            self.models.store(self, st, base, t.slice, v, t, t.value)
+            return
+        raise Unsupported(f'assignment target {type(t).__name__} at line {t.lineno}')
+
+    def st_If(self, s, st):
+        test_src = ast.unparse(s.test)
+        if test_src == 'log':
+            self.dropped.add('if log: branch')
+            lv = st.vars.get('log')
+            if lv is False or lv is None or 'log' not in st.vars:
+                return self.exec_block(s.orelse, st)
+        c = self.truth(st, self.ev(s.test, st), s)
+        d = self.decide(st, c, s)
+        return self.exec_block(s.body if d else s.orelse, st)
+
+    def st_Return(self, s, st):
+        v = self.ev(s.value, st) if s.value is not None else NONE
+        return [(st, Outcome('return', value=v, node=s))]
+
+    def st_Raise(self, s, st):
+        exc = 'Exception'
+        if s.exc is not None:
+            exc = ast.unparse(s.exc.func) if isinstance(s.exc, ast.Call) else ast.unparse(s.exc)
+        return [(st, Outcome('raise', exc=exc, node=s))]
+
+    def st_Break(self, s, st):
+        return [(st, Outcome('break', node=s))]
+
+    def st_Continue(self, s, st):
+        return [(st, Outcome('continue', node=s))]
+
+    def st_Assert(self, s, st):
+        self.dropped.add('assert')
+        return [(st, NORMAL)]
+
+    def st_Try(self, s, st):
+        return self.models.try_stmt(self, st, s)
+
+    def st_While(self, s, st):
+        return self.loop(s, st, None)
+
+    def st_For(self, s, st):
+        it = self.models.iteration(self, st, s.iter, s)
+        return self.loop(s, st, it)
+
+    # ---- loops
+    def assigned_names(self, stmts):
+        names, muts = set(), set()
+        for n in ast.walk(ast.Module(body=list(stmts), type_ignores=[])):
+            if isinstance(n, (ast.Assign, ast.AugAssign, ast.For)):
+                tg = n.targets if isinstance(n, ast.Assign) else [n.target]
+                for t in tg:
+                    for x in ast.walk(t):
+                        if isinstance(x, ast.Name) and isinstance(x.ctx, ast.Store):
+                            names.add(x.id)
+                        if isinstance(x, ast.Subscript):
+                            b = x.value
+                            while isinstance(b, (ast.Subscript, ast.Attribute)):
+                                b = b.value
+                            if isinstance(b, ast.Name):
+                                muts.add(b.id)
+            if isinstance(n, ast.Call) and isinstance(n.func, ast.Attribute) and \
+                    n.func.attr in ('append', 'extend', 'update', 'insert', 'pop', 'sort'):
+                b = n.func.value
+                if isinstance(b, ast.Name):
+                    muts.add(b.id)
+        return names, muts
+
+    def loop(self, s, st, it):
+        ordn = self.loop_ord[id(s)]
+        # concrete iteration: unroll
+        if it is not None and it.concrete is not None:
+            states, done = [(st, NORMAL)], []
+            for binding in it.concrete:
+                nxt = []
+                for s0, o in states:
+                    if o.kind != 'normal':
+                        done.append((s0, o))
+                        continue
+                    self.assign(s.target, binding, s0)
+                    for s1, o1 in self.exec_block(s.body, s0):
+                        if o1.kind in ('normal', 'continue'):
+                            nxt.append((s1, NORMAL))
+                        elif o1.kind == 'break':
+                            done.append((s1, NORMAL))
+                        else:
+                            done.append((s1, o1))
+                states = nxt
+            return states + done
+        spec = self.loops.get(ordn)
+        if spec is None:
+            raise ContractMismatch(f'loop #{ordn} at line {s.lineno} of {self.func.qual} needs an invariant '
+                                   f'(the sidecar contract has none)')
+        inv, extra_havoc = spec['inv'], spec.get('havoc', ())
+        out = []
+        j0 = z3.IntVal(0)
+        st.ghost['_j'] = j0
+        if it is not None:
+            st.ghost['_n'] = it.n
+        pre = st.copy()
+        for lbl, g in inv(self, st, j0):
+            self.oblige(st, 'inv-init', f'loop{ordn}.{lbl}', g, s, assume=False)
+        # havoc
+        names, muts = self.assigned_names(s.body)
+        h = st.copy()
+        j = self.fresh_int('j')
+        h.ghost['_j'] = j
+        for nm in sorted(names | muts | set(extra_havoc)):
+            if nm in h.vars:
+                h.vars[nm] = self.models.havoc(self, h, h.vars[nm], nm, nm in muts)
+        h.assume(j >= 0)
+        if it is not None:
+            h.assume(j <= it.n)
+        if 'havoc_hook' in spec:
+            spec['havoc_hook'](self, h, pre, j)
+        for lbl, g in inv(self, h, j):
+            h.assume(g)
+        # exit path
+        if it is not None:
+            ex = h.copy()
+            ex.assume(j == it.n)
+            ex.trace.append(f'loop{ordn}:exit')
+            if self.feasible(ex, True):
+                out.append((ex, NORMAL))
+        else:
+            test = s.test
+            if not (isinstance(test, ast.Constant) and test.value is True):
+                ex = h.copy()
+                c = self.truth(ex, self.ev(test, ex), s)
+                ex.assume(z3.Not(Z(c)))
+                ex.trace.append(f'loop{ordn}:exit')
+                out.append((ex, NORMAL))
+        # body path
+        b = h.copy()
+        b.trace.append(f'loop{ordn}:body')
+        if it is not None:
+            b.assume(j < it.n)
+            self.assign(s.target, it.bind(self, b, j), b)
+        else:
+            test = s.test
+            if not (isinstance(test, ast.Constant) and test.value is True):
+                c = self.truth(b, self.ev(test, b), s)
+                b.assume(Z(c))
+        for s1, o1 in self.exec_block(s.body, b):
+            if o1.kind in ('normal', 'continue'):
+                for lbl, g in inv(self, s1, j + 1):
+                    self.oblige(s1, 'inv-keep', f'loop{ordn}.{lbl}', g, s, assume=False)
+            elif o1.kind == 'break':
+                out.append((s1, NORMAL))
+            else:
+                out.append((s1, o1))
+        return out
+
+    # ---- entry
+    def run(self, st):
+        """Execute the function body; returns list of (state, outcome) with outcome return/raise."""
+        res = []
+        for s1, o in self.exec_block(self.func.body, st):
+            if o.kind == 'normal':
+                o = Outcome('return', value=NONE)
+            if o.kind in ('break', 'continue'):
+                raise Unsupported('break/continue outside loop')
+            res.append((s1, o))
+        return res
